@@ -515,7 +515,7 @@ def changed_anchor_files(pid):
 
 
 # ---- source tie: the word-level helpers are translated from the Rust text on every run
-GENTIE_FILES = ["src/lib.rs", "src/from.rs", "src/add.rs", "src/div.rs", "src/cmp.rs", "src/special.rs", "src/bits.rs", "src/bytes.rs", "src/pow.rs", "src/modular.rs", "src/algorithms/gcd/matrix.rs", "src/algorithms/gcd/mod.rs", "src/gcd.rs", "src/mul.rs", "src/algorithms/mod.rs", "src/algorithms/ops.rs",
+GENTIE_FILES = ["src/lib.rs", "src/from.rs", "src/add.rs", "src/div.rs", "src/cmp.rs", "src/special.rs", "src/bits.rs", "src/bytes.rs", "src/pow.rs", "src/log.rs", "src/modular.rs", "src/algorithms/gcd/matrix.rs", "src/algorithms/gcd/mod.rs", "src/gcd.rs", "src/mul.rs", "src/algorithms/mod.rs", "src/algorithms/ops.rs",
                 "src/algorithms/mul.rs", "src/algorithms/mul_redc.rs", "src/algorithms/add.rs", "src/algorithms/shift.rs",
                 "src/algorithms/div/reciprocal.rs", "src/algorithms/div/small.rs", "src/algorithms/div/mod.rs", "src/algorithms/div/knuth.rs"]
 
